@@ -3,6 +3,24 @@ import json, os, sys
 VERIF = os.path.dirname(os.path.dirname(os.path.abspath(__file__)))
 sys.path.insert(0, VERIF)
 from checks.registry import CLAIMS, ENGINES, NOT_APPLICABLE  # noqa
+import glob
+for f in sorted(glob.glob(os.path.join(VERIF, "checks", "C*.claim.json"))):
+    pid = os.path.basename(f).split(".")[0]
+    if pid not in CLAIMS and os.path.exists(os.path.join(VERIF, "checks", pid + ".py")):
+        CLAIMS[pid] = json.load(open(f))
+ENG_KIND = {
+    "params": "TLA+ specs of the parameter transforms (pure functions as one-step machines); TLC enumerates inputs; one real call per TLC case, validated by trace specs",
+    "place": "TLA+ specs of the placement solver / painter / overlap / symmetric placement / shapes / grid helpers; replay through resolve_object_constraints/place_objects/apply_params",
+    "detect": "TLA+ specs of detector co-location, reductions, phasor DFT, unfolding; exact replay through Detector.update and stepped runs",
+    "algebra": "TLA+ specs of dispersion coefficients, material normalisation, functional heap updates, wave descriptions",
+    "yee": "TLA+ Yee-step specs (integer/rational arithmetic) and product specs; basis-state replay through forward/backward",
+    "monitor": "trace-monitor specs over logged scaled-integer observations of pipeline runs",
+}
+names = {e["name"] for e in ENGINES}
+for c in CLAIMS.values():
+    if c["engine"] not in names:
+        ENGINES.append({"name": c["engine"], "path": "spec/", "kind_free_text": ENG_KIND.get(c["engine"], "TLA+ spec + TLC + trace validation")})
+        names.add(c["engine"])
 props = [json.loads(l) for l in open(os.path.join(VERIF, "properties.jsonl"))]
 ids = [p["id"] for p in props]
 checks = []
